@@ -121,6 +121,12 @@ Close ==
     /\ ran' = [x \in Cbs |-> IF cb[x] \in {"conn", "explicit", "intro"} THEN ran[x] + 1 ELSE ran[x]]
     /\ UNCHANGED <<idx, tried, cb, late>>
 
+(* the same, with callback x cancelling itself from inside its own invocation (a one-shot listener cleaning up): every
+   registered callback still runs once *)
+CloseCancelling(x) ==
+    /\ cb[x] \in {"conn", "explicit", "intro"}
+    /\ Close
+
 (* the same, with user code that reacts to the loss by issuing further calls on the connection (a retry from the
    errback of the outstanding call that fails first, or from a disconnect callback): the calls in R are issued and fail
    within the handling of the loss - nothing is left to fire later *)
@@ -146,6 +152,7 @@ Next ==
     \/ \E x \in Cbs, w \in {"conn", "explicit", "intro"} : Register(x, w)
     \/ \E x \in Cbs : DropProxy(x) \/ Unregister(x) \/ Reregister(x)
     \/ \E R \in SUBSET Calls : CloseRetry(R)
+    \/ \E x \in Cbs : CloseCancelling(x)
 
 Spec == Init /\ [][Next]_vars
 
